@@ -63,10 +63,13 @@ type realSpec struct {
 	TLS           bool          `json:"tls,omitempty"`
 	RestartAt     time.Duration `json:"restart_at,omitempty"`
 	RestartBackAt time.Duration `json:"restart_back_at,omitempty"`
+	// FirstJoinFails: instance 0 lists instance 1, which is started only StartGap later and lists nobody
+	FirstJoinFails bool          `json:"first_join_fails,omitempty"`
+	StartGap       time.Duration `json:"start_gap,omitempty"`
 }
 
 func (s *realSpec) healthy() bool {
-	return s.Kind == "healthy" || s.Kind == "settle-ends-by-timeout" || s.Kind == "tls-instance-restarts"
+	return s.Kind == "healthy" || s.Kind == "settle-ends-by-timeout" || s.Kind == "tls-instance-restarts" || s.Kind == "first-join-fails"
 }
 
 func (s *realSpec) pos(i int) int {
@@ -200,16 +203,26 @@ func runReal(sp *realSpec, dir string) (*realRun, string) {
 		}
 		return sim.Start(sim.Options{Name: sp.Names[i], ConfigYAML: sp.yaml(), Dir: fmt.Sprintf("%s/i%d", dir, i), Log: rr.log, Script: script,
 			RealCluster: &sim.RealCluster{BindAddr: addrs[i], PeerName: sp.Names[i], Peers: peers, PeerTimeout: sp.PeerTimeout, TLSConfigFile: tlsFile,
-				GossipInterval: 50 * time.Millisecond, PushPull: time.Hour, ProbeTimeout: 5 * time.Second, ProbeInterval: 10 * time.Second, SettleTimeout: sp.SettleTimeout}})
+				GossipInterval: 50 * time.Millisecond, PushPull: time.Hour, ProbeTimeout: 5 * time.Second, ProbeInterval: 10 * time.Second, SettleTimeout: sp.SettleTimeout, ReconnectInterval: time.Second}})
 	}
 	for i := 0; i < n0; i++ {
 		var peers []string
 		for j := 0; j < i; j++ {
 			peers = append(peers, addrs[j])
 		}
+		if sp.FirstJoinFails {
+			// seed-style configuration started in the inconvenient order: the first instance lists the second,
+			// which is not running yet (its first join fails), the second lists nobody
+			peers = nil
+			if i == 0 {
+				peers = []string{addrs[1]}
+			} else {
+				time.Sleep(sp.StartGap)
+			}
+		}
 		in, err := sim.Start(sim.Options{Name: sp.Names[i], ConfigYAML: sp.yaml(), Dir: fmt.Sprintf("%s/i%d", dir, i), Log: rr.log, Script: script,
 			RealCluster: &sim.RealCluster{BindAddr: addrs[i], PeerName: sp.Names[i], Peers: peers, PeerTimeout: sp.PeerTimeout, TLSConfigFile: tlsFile,
-				GossipInterval: 50 * time.Millisecond, PushPull: time.Hour, ProbeTimeout: 5 * time.Second, ProbeInterval: 10 * time.Second, SettleTimeout: sp.SettleTimeout}})
+				GossipInterval: 50 * time.Millisecond, PushPull: time.Hour, ProbeTimeout: 5 * time.Second, ProbeInterval: 10 * time.Second, SettleTimeout: sp.SettleTimeout, ReconnectInterval: time.Second}})
 		if err != nil {
 			return nil, "start: " + err.Error()
 		}
@@ -714,7 +727,7 @@ func subsetOf(a, b []string) bool {
 
 func genRealSpec(r *rand.Rand, seed int64, i int) *realSpec {
 	sp := &realSpec{Seed: seed}
-	kinds := []string{"healthy", "late-joiner-without-data", "first-position-cannot-deliver", "leader-leaves", "only-last-position-can-deliver", "settle-ends-by-timeout", "tls-instance-restarts"}
+	kinds := []string{"healthy", "late-joiner-without-data", "first-position-cannot-deliver", "leader-leaves", "only-last-position-can-deliver", "settle-ends-by-timeout", "tls-instance-restarts", "first-join-fails"}
 	sp.Kind = kinds[i%len(kinds)]
 	sp.Size = 2 + r.Intn(2)
 	sp.PeerTimeout = time.Second
@@ -726,6 +739,9 @@ func genRealSpec(r *rand.Rand, seed int64, i int) *realSpec {
 	}
 	if sp.Kind == "tls-instance-restarts" {
 		sp.Size, sp.TLS = 2, true
+	}
+	if sp.Kind == "first-join-fails" {
+		sp.Size, sp.FirstJoinFails, sp.StartGap = 2, true, time.Duration(1200+r.Intn(1500))*time.Millisecond
 	}
 	if sp.Kind == "late-joiner-without-data" {
 		// two initial members: a lone member keeps its broadcasts queued (nobody to gossip to) and would hand
@@ -776,13 +792,14 @@ func genRealSpec(r *rand.Rand, seed int64, i int) *realSpec {
 
 func TestRealMesh(t *testing.T) {
 	run := vf.Cur()
-	sub := run.Sub("real-mesh-loopback", "2-3 unmodified instances with the REAL gossip mesh (memberlist on loopback, real Peer.Position / clusterWait / pipeline time-out extension / settle), real time; every instance is (re-)sent the same alerts once a second; kinds: healthy, a late joiner with an empty data directory (it must hold the log entries of the groups notified before within 5 s of reporting ready - rule (f)), position 0 cannot deliver (recoverable or unrecoverable errors), position 0 leaves gracefully mid-run, only the last position can deliver with a cluster wait (12 s) above the base pipeline time-out, a healthy mesh whose instances end their settle phase by its time-out (300 ms, before the first settle poll) instead of by a stable membership, a healthy 2-instance mesh over the TLS gossip transport whose position-1 instance is stopped and started again on the same address (the other instance's pooled connection to it breaks); a monitor polls every instance's notification log every 3 ms; judged: (a) no delivery starts earlier than position x peer_timeout after its flush tick while membership is complete, (b) at the end some instance has delivered the current state of every group and the resolution, (c) no instance repeats a state whose covering entry the monitor had seen in that instance's log before the flush tick, (g) in healthy runs no later-positioned instance repeats a state another instance delivered more than 500 ms before it consulted its log, (e) in healthy runs (half of them with a 120-alert group whose log entry exceeds the 700-byte direct-send threshold) the entry of every successful notification is seen in every other instance's log within 5 s; a miss of (b), (e) or (g) must reproduce on 3 runs; non-trivial = >=2 successful notifications and every instance was ready with full membership; distinct by (seed)", 4)
-	n := run.N(14, 280)
-	vf.Parallel(t, n, 14, func(t *testing.T, i int) {
+	sub := run.Sub("real-mesh-loopback", "2-3 unmodified instances with the REAL gossip mesh (memberlist on loopback, real Peer.Position / clusterWait / pipeline time-out extension / settle), real time; every instance is (re-)sent the same alerts once a second; kinds: healthy, a late joiner with an empty data directory (it must hold the log entries of the groups notified before within 5 s of reporting ready - rule (f)), position 0 cannot deliver (recoverable or unrecoverable errors), position 0 leaves gracefully mid-run, only the last position can deliver with a cluster wait (12 s) above the base pipeline time-out, a healthy mesh whose instances end their settle phase by its time-out (300 ms, before the first settle poll) instead of by a stable membership, a healthy 2-instance mesh over the TLS gossip transport whose position-1 instance is stopped and started again on the same address (the other instance's pooled connection to it breaks), a 2-instance mesh started in the inconvenient order (the first instance lists the second, which starts 1.2-2.7 s later and lists nobody: the first join fails and has to be retried, reconnect interval 1 s - a mesh that has not formed after 40 s on three tries is a violation); a monitor polls every instance's notification log every 3 ms; judged: (a) no delivery starts earlier than position x peer_timeout after its flush tick while membership is complete, (b) at the end some instance has delivered the current state of every group and the resolution, (c) no instance repeats a state whose covering entry the monitor had seen in that instance's log before the flush tick, (g) in healthy runs no later-positioned instance repeats a state another instance delivered more than 500 ms before it consulted its log, (e) in healthy runs (half of them with a 120-alert group whose log entry exceeds the 700-byte direct-send threshold) the entry of every successful notification is seen in every other instance's log within 5 s; a miss of (b), (e) or (g) must reproduce on 3 runs; non-trivial = >=2 successful notifications and every instance was ready with full membership; distinct by (seed)", 4)
+	n := run.N(16, 320)
+	vf.Parallel(t, n, 16, func(t *testing.T, i int) {
 		r := sub.Rand(i)
 		sp := genRealSpec(r, sub.Seed(i), i)
 		var verdicts []realVerdict
 		var rr *realRun
+		neverFormed := 0
 		for try := 0; try < 3; try++ {
 			dir := sysrun.ScratchDir("C08", "real", i)
 			var why string
@@ -793,6 +810,16 @@ func TestRealMesh(t *testing.T) {
 				}
 			}
 			os.RemoveAll(dir)
+			if rr == nil && sp.FirstJoinFails && strings.Contains(why, "did not become ready with full membership") {
+				// the instances never found each other although one of them lists the other and retries every second
+				neverFormed++
+				if try < 2 {
+					continue
+				}
+				sub.Violation("instances-never-connect-after-a-failed-first-join", map[string]any{"spec": sp, "tries": neverFormed, "waited_per_try": "40s", "reconnect_interval": "1s"})
+				sub.Case(vf.Digest(sub.Seed(i)), true)
+				return
+			}
 			if rr == nil {
 				sub.Inconclusive(fmt.Sprintf("case %d (%s): %s", i, sp.Kind, why))
 				return
